@@ -232,3 +232,64 @@ Proof.
   apply link_chain_other; [exact Hj | | exact Hn].
   eapply Forall_impl; [|exact Hf]. intros a Ha'. cbv beta in Ha'. lia.
 Qed.
+
+(** * the follower's view of the FAT (D38): only the entries of clusters the volume has.  A chain reported complete is the
+    same chain in the whole table, and a complete chain of the whole table whose members the volume has is seen *)
+Lemma nthZ_firstn (l:list Z) K i : 0 <= i < Z.of_nat K -> nthZ (firstn K l) i = nthZ l i.
+Proof.
+  intros H. unfold nthZ. assert (Hn : (Z.to_nat i < K)%nat) by lia. clear H. revert Hn. generalize (Z.to_nat i) as n. intros n Hn.
+  revert l K Hn. induction n as [|m IH]; intros l K Hn; destruct K as [|k]; try lia; destruct l as [|x r]; try reflexivity.
+  cbn [firstn nth]. apply IH. lia.
+Qed.
+Lemma lenZ_firstn (l:list Z) K : lenZ (firstn K l) = Z.min (Z.of_nat K) (lenZ l).
+Proof. unfold lenZ. rewrite firstn_length. lia. Qed.
+Lemma chain_go_view_raw f : forall t dm fat K i l, chain_go f t dm (firstn K fat) i = (l, true) ->
+  chain_go f t dm fat i = (l, true) /\ Forall (fun c => c < Z.of_nat K) l.
+Proof.
+  induction f as [|g IH]; intros t dm fat K i l H; cbn [chain_go] in *; [discriminate|]. pose proof (min_data_nonneg t) as Hm.
+  rewrite lenZ_firstn in H.
+  destruct ((i <? Gen.MIN_DATA_CLUSTER t) || (Z.min (Z.of_nat K) (lenZ fat) <=? i)) eqn:E; [discriminate|].
+  replace ((i <? Gen.MIN_DATA_CLUSTER t) || (lenZ fat <=? i)) with false by lia. cbv zeta in *.
+  rewrite nthZ_firstn in H by lia.
+  destruct (is_data t dm (nthZ fat i)).
+  - destruct (chain_go g t dm (firstn K fat) (nthZ fat i)) as [r ok] eqn:Er. inversion H; subst l ok.
+    destruct (IH _ _ _ _ _ _ Er) as [Hr Hf]. rewrite Hr. split; [reflexivity|]. constructor; [lia|exact Hf].
+  - destruct (is_eoc t (nthZ fat i)); [|discriminate]. inversion H; subst l. split; [reflexivity|]. constructor; [lia|constructor].
+Qed.
+Lemma chain_go_raw_view f : forall t dm fat K i l, chain_go f t dm fat i = (l, true) -> Forall (fun c => c < Z.of_nat K) l ->
+  chain_go f t dm (firstn K fat) i = (l, true).
+Proof.
+  induction f as [|g IH]; intros t dm fat K i l H Hf; cbn [chain_go] in *; [discriminate|]. pose proof (min_data_nonneg t) as Hm.
+  rewrite lenZ_firstn.
+  destruct ((i <? Gen.MIN_DATA_CLUSTER t) || (lenZ fat <=? i)) eqn:E; [discriminate|]. cbv zeta in *.
+  assert (Hi : i < Z.of_nat K).
+  { destruct (is_data t dm (nthZ fat i)).
+    - destruct (chain_go g t dm fat (nthZ fat i)) as [r ok]. inversion H; subst l ok. inversion Hf; subst. assumption.
+    - destruct (is_eoc t (nthZ fat i)); [|discriminate]. inversion H; subst l. inversion Hf; subst. assumption. }
+  replace ((i <? Gen.MIN_DATA_CLUSTER t) || (Z.min (Z.of_nat K) (lenZ fat) <=? i)) with false by lia.
+  rewrite nthZ_firstn by lia.
+  destruct (is_data t dm (nthZ fat i)).
+  - destruct (chain_go g t dm fat (nthZ fat i)) as [r ok] eqn:Er. inversion H; subst l ok. inversion Hf; subst.
+    rewrite (IH _ _ _ K _ _ Er) by assumption. reflexivity.
+  - exact H.
+Qed.
+(** state level *)
+Lemma chain_raw s c l : chain s c = (l, true) ->
+  chain_go (length (s_fat s)) (ft s) (dmax s) (s_fat s) c = (l, true) /\ Forall (fun x => x <= max_cluster s) l.
+Proof.
+  unfold chain, vfat. intros H. pose proof (chain_go_in_fat (length (s_fat s)) (ft s) (dmax s) (firstn (Z.to_nat (max_cluster s + 1)) (s_fat s)) c) as Hin. rewrite H in Hin. cbn [fst] in Hin.
+  destruct (chain_go_view_raw _ _ _ _ _ _ _ H) as [Hr Hf]. split; [exact Hr|].
+  apply Forall_forall. intros x Hx. rewrite Forall_forall in Hf. specialize (Hf x Hx). destruct (Hin x Hx) as [Hp _]. lia.
+Qed.
+Lemma chain_of_raw s c l : chain_go (length (s_fat s)) (ft s) (dmax s) (s_fat s) c = (l, true) -> Forall (fun x => x <= max_cluster s) l ->
+  chain s c = (l, true).
+Proof.
+  intros H Hf. unfold chain, vfat. apply chain_go_raw_view; [exact H|]. eapply Forall_impl; [|exact Hf]. intros x Hx. cbv beta in *. lia.
+Qed.
+(** whatever the follower yields, complete or not, is a cluster the volume has *)
+Lemma chain_members_bounded s c l ok : chain s c = (l, ok) -> Forall (fun x => Gen.MIN_DATA_CLUSTER (ft s) <= x <= max_cluster s /\ 0 <= x < lenZ (s_fat s)) l.
+Proof.
+  unfold chain, vfat. intros H. apply Forall_forall. intros x Hx.
+  pose proof (chain_go_in_fat (length (s_fat s)) (ft s) (dmax s) (firstn (Z.to_nat (max_cluster s + 1)) (s_fat s)) c x) as Hin. rewrite H in Hin. cbn [fst] in Hin.
+  specialize (Hin Hx). rewrite lenZ_firstn in Hin. lia.
+Qed.
